@@ -14,7 +14,7 @@ import (
 func ZZC08Oracle() {
 	k := vn.Param("K", 2)
 	d := vn.Param("D", 1)
-	e := ZZGenEnv(k, 1)
+	e := ZZGenEnv(k, vn.Param("BD", 1))
 	alias := false
 	for i := 0; i < k; i++ {
 		alias = vn.Or(alias, e.Body[i].Sel == zzLabel)
@@ -161,3 +161,63 @@ func ZZC08Cost() {
 }
 
 func init() { vn.Register("types.ZZC08Cost", ZZC08Cost) }
+
+// zzCtx wraps t in one unary context: a one-branch choice, a product or function type with a
+// unit on the other side.
+func zzCtx(kind int, label string, mode Modality, t SessionType) SessionType {
+	switch kind {
+	case 0:
+		return NewSelectLabelType([]Option{*NewOption(label, t)}, mode)
+	case 1:
+		return NewBranchCaseType([]Option{*NewOption(label, t)}, mode)
+	case 2:
+		return NewSendType(NewUnitType(mode), t, mode)
+	case 3:
+		return NewSendType(t, NewUnitType(mode), mode)
+	default:
+		return NewReceiveType(NewUnitType(mode), t, mode)
+	}
+}
+
+func zzCtxN(n int, kind int, label string, mode Modality, t SessionType) SessionType {
+	for i := 0; i < n; i++ {
+		t = zzCtx(kind, label, mode, t)
+	}
+	return t
+}
+
+// ZZC08Phases: recursive types whose names are reached at different depths on the two sides.
+// type A = C^p(A), type B = C^q(B) (C a unary context, p, q in 1..3) denote the same regular
+// tree C^ω; so do C^i(A) and C^j(B) for all i, j. EqualType must say so within the unwinding
+// bound (pairs of a name and a structure recur on such inputs: a memo that only remembers pairs
+// of names never closes the cycle), and must tell them apart as soon as one context on one side
+// carries a different label.
+func ZZC08Phases() {
+	kind := vn.Pick(5)
+	mode := zzMode(vn.Int(0, 3), 4)
+	lab := zzLabelName(vn.Int(0, 2))
+	other := zzLabelName(vn.Int(0, 2))
+	p, q := 1+vn.Pick(3), 1+vn.Pick(3)
+	i, j := vn.Pick(3), vn.Pick(3)
+	twist := vn.Bool()
+	nameA, nameB := NewLabelType("A", mode), NewLabelType("B", mode)
+	defs := []SessionTypeDefinition{
+		{Name: "A", SessionType: zzCtxN(p, kind, lab, mode, NewLabelType("A", mode)), Modality: mode},
+		{Name: "B", SessionType: zzCtxN(q, kind, lab, mode, NewLabelType("B", mode)), Modality: mode},
+	}
+	env := ProduceLabelledSessionTypeEnvironment(defs)
+	s := zzCtxN(i, kind, lab, mode, nameA)
+	var t SessionType = zzCtxN(j, kind, lab, mode, nameB)
+	differ := false
+	if twist && kind <= 1 {
+		// one more context on the right, under a label that may differ
+		t = zzCtx(kind, other, mode, t)
+		differ = !vn.EqS(lab, other)
+	}
+	got := EqualType(s, t, env)
+	vn.Assert("C08.out-of-phase-recursion-decided", got == !differ)
+	vn.Assert("C09.type-comparison-terminates-on-out-of-phase-recursion", true)
+	vn.Observe("got", got)
+}
+
+func init() { vn.Register("types.ZZC08Phases", ZZC08Phases) }
